@@ -70,7 +70,6 @@ var optWriters = map[string][]string{
 	"mxj.trimRunes":               {"mxj.DisableTrimWhiteSpace"},
 	"mxj.useGoXmlEmptyElemSyntax": {"mxj.XmlGoEmptyElemSyntax", "mxj.XmlDefaultEmptyElemSyntax"},
 	"mxj.xmlEscapeChars":          {"mxj.XMLEscapeChars", "mxj.XMLEscapeCharsDecoder"},
-	"x2jw.castNanInf":             {"x2jw.CastNanInf"},
 }
 
 // userVars: exported variables the user assigns; the module itself never stores to them.
